@@ -133,7 +133,9 @@ theorem extint_reads_return_current_views (F : Fns α) (ops : List (Op α)) (k :
   have he : st.isExt = true := reach_isExt F true ops
   exact ⟨out_readBigHNoExt F st h he, out_readHkNoExt F st k h he, out_readHNoExt F st h he⟩
 
-/-- Reading any view, or sending data through the channel, changes no view:
+/-- R11 — the non-mutating API does not mutate.  Reading any view or observer, any other public method
+    that is not a setter (`Op.query`: `calc_Q`, `calc_SINR`, …, copying or pickling the object), or sending
+    data through the channel, changes no view:
     afterwards `big_H`, `H` and the block-diagonal filter are what they were. -/
 theorem reads_do_not_change_views (F : Fns α) (st : State α) (op : Op α) (hr : op.isRead = true) :
     specBigH F (step Cfg.fixed F st op).1 = specBigH F st
